@@ -35,11 +35,38 @@ func (r *Recorder) Emit(format string, args ...any) {
 	s := fmt.Sprintf(format, args...)
 	r.mu.Lock()
 	r.evs = append(r.evs, s)
-	r.mu.Unlock()
 	r.n.Add(1)
+	r.mu.Unlock()
 }
 
 func (r *Recorder) Count() int64 { return r.n.Load() }
+
+// EmitIfCount appends the event only if exactly cnt events have been recorded so far (atomically),
+// so that an observation of quiescence cannot be logged after something else already happened.
+func (r *Recorder) EmitIfCount(cnt int64, format string, args ...any) bool {
+	s := fmt.Sprintf(format, args...)
+	r.mu.Lock()
+	defer r.mu.Unlock()
+	if int64(len(r.evs)) != cnt {
+		return false
+	}
+	r.evs = append(r.evs, s)
+	r.n.Add(1)
+	return true
+}
+
+// QuiescentAt waits for quiescence and returns the event count at which it was observed (-1 on timeout).
+func (r *Recorder) QuiescentAt(maxWait time.Duration) int64 {
+	for deadline := time.Now().Add(maxWait); ; {
+		c := r.Count()
+		if r.WaitQuiescentN(time.Until(deadline), 3, 300*time.Microsecond) && r.Count() == c {
+			return c
+		}
+		if time.Now().After(deadline) {
+			return -1
+		}
+	}
+}
 
 func (r *Recorder) Events() []string {
 	r.mu.Lock()
@@ -189,22 +216,55 @@ func (r *Recorder) WaitQuiescent(maxWait time.Duration) bool {
 	return r.WaitQuiescentN(maxWait, 3, 300*time.Microsecond)
 }
 
+// allGoroutineStatus returns "id:status;" for every goroutine of the process except the caller,
+// and whether all of them are blocked.  Using every goroutine (library, mocks, pumps, pending API
+// calls of the harness) avoids declaring quiescence while a harness goroutine is still on its way
+// into the library.
+func allGoroutineStatus() (string, bool) {
+	buf := make([]byte, 1<<20)
+	for {
+		n := runtime.Stack(buf, true)
+		if n < len(buf) {
+			buf = buf[:n]
+			break
+		}
+		buf = make([]byte, 2*len(buf))
+	}
+	all := true
+	var sb strings.Builder
+	for bi, b := range bytes.Split(buf, []byte("\n\n")) {
+		if bi == 0 {
+			continue
+		}
+		line := b
+		if i := bytes.IndexByte(b, '\n'); i >= 0 {
+			line = b[:i]
+		}
+		m := hdrRe.FindSubmatch(line)
+		if m == nil {
+			continue
+		}
+		if bytes.Contains(b, []byte("os/signal.loop")) || bytes.Contains(b, []byte("os/signal.signal_recv")) {
+			continue // the runtime's signal-forwarding goroutine sits in a syscall forever
+		}
+		if !blockedStatus[string(m[2])] {
+			all = false
+		}
+		sb.Write(m[1])
+		sb.WriteByte(':')
+		sb.Write(m[2])
+		sb.WriteByte(';')
+	}
+	return sb.String(), all
+}
+
 func (r *Recorder) WaitQuiescentN(maxWait time.Duration, stable int, gap time.Duration) bool {
 	deadline := time.Now().Add(maxWait)
 	prevSig := ""
 	prevCount := int64(-1)
 	good := 0
 	for {
-		gs := LibraryGoroutines()
-		all := true
-		var sb strings.Builder
-		for _, g := range gs {
-			if !g.Blocked {
-				all = false
-			}
-			fmt.Fprintf(&sb, "%d:%s;", g.ID, g.Status)
-		}
-		sig := sb.String()
+		sig, all := allGoroutineStatus()
 		cnt := r.Count()
 		if all && sig == prevSig && cnt == prevCount {
 			good++
